@@ -213,6 +213,9 @@ type Reviver struct {
 	ArrLen  bool      `json:"arrlen,omitempty"`
 	DelWhen *[]uint16 `json:"delwhen,omitempty"`
 	DelKey  *[]uint16 `json:"delkey,omitempty"`
+	// NonCallable, when set, is an ES5 expression for a value that is not callable ({} 5 null "f" [] /x/ true):
+	// 15.12.2 step 4 applies the reviver only "if IsCallable(reviver)", so the result is the plain parse and nothing is called.
+	NonCallable string `json:"noncallable,omitempty"`
 }
 
 // RevEntry is one logged reviver call.
